@@ -38,3 +38,8 @@ pub mod arch_steps {
 pub mod world {
     include!(concat!(env!("BROOD_VERIF_DIR"), "/harness/world.rs"));
 }
+
+#[cfg(kani)]
+pub mod query {
+    include!(concat!(env!("BROOD_VERIF_DIR"), "/harness/query.rs"));
+}
